@@ -326,6 +326,7 @@ func c37Divisions(c *Ctx, fns []*ssa.Function, reach map[*ssa.Function]string) {
 	}
 
 	c37TypeAsserts(c, fns, reach)
+	c37MustCalls(c, fns, reach)
 
 	c.Rule("C37d the audited belief about the downtime EpochDuration parameter is enforced where parameters are set: validateDowntimeDuration returns nil only past the false outcome of `value <= 0`, and both parameters of the downtime module are registered with it")
 	if v := c.Fn("x/downtime/v1.validateDowntimeDuration"); v != nil {
@@ -427,3 +428,63 @@ func c37TypeAsserts(c *Ctx, fns []*ssa.Function, reach map[*ssa.Function]string)
 }
 
 var c37AssertAudited = map[string]string{}
+
+// c37MustCalls: calls to Must* helpers (panic on error by convention) of other modules.
+func c37MustCalls(c *Ctx, fns []*ssa.Function, reach map[*ssa.Function]string) {
+	c.Rule("C37f Must* helpers: every call, reachable from block processing, of a function outside lava whose name starts with Must (panics on error by convention) has constant arguments only, or is listed in the audited table with the reason the error cannot occur")
+	n, nConst, nCodec := 0, 0, 0
+	for _, f := range fns {
+		per := map[string]int{}
+		for _, b := range f.Blocks {
+			if b == f.Recover {
+				continue
+			}
+			for _, in := range b.Instrs {
+				call := ir.CallOf(in)
+				if call == nil {
+					continue
+				}
+				name := calleeOrAlias(call)
+				if call.IsInvoke() {
+					name = call.Method.Name()
+				}
+				short := name[strings.LastIndex(name, ".")+1:]
+				if !strings.HasPrefix(short, "Must") || len(short) < 5 || short[4] < 'A' || short[4] > 'Z' {
+					continue
+				}
+				n++
+				allConst := true
+				for _, a := range call.Args {
+					if _, ok := unconv(a).(*ssa.Const); !ok {
+						allConst = false
+					}
+				}
+				if allConst && !call.IsInvoke() {
+					nConst++
+					continue
+				}
+				per[short]++
+				key := ir.FuncName(f) + "/" + short
+				if per[short] > 1 {
+					key += "#" + itoa(per[short])
+				}
+				if call.IsInvoke() && (short == "MustMarshal" || short == "MustUnmarshal") && strings.Contains(ir.TypeName(call.Value.Type()), "cosmos-sdk/codec.") {
+					nCodec++
+					c.OK("C37f/"+key, c.P.InstrPos(in), "codec "+short+" of a typed store value: fires only on an encoding error of the module's own stored bytes, not on chain state")
+					continue
+				}
+				if why, ok := c37MustAudited[key]; ok {
+					c.Audit("C37f/"+key, c.P.InstrPos(in), why)
+				} else {
+					c.Fail("C37f/"+key, c.P.InstrPos(in), "call of "+name+" with non-constant arguments reachable from block processing ("+reach[f]+"): it panics on error")
+				}
+			}
+		}
+	}
+	c.Note("C37f/summary", "-", itoa(n)+" Must* calls under block processing: "+itoa(nConst)+" on constants, "+itoa(nCodec)+" codec (un)marshal of store values")
+	if nCodec < 30 {
+		c.Undecided("C37f: only %d codec Must(Un)Marshal calls recognised under block processing (frozen count 30): the recogniser or the reach is broken", nCodec)
+	}
+}
+
+var c37MustAudited = map[string]string{}
